@@ -20,6 +20,7 @@ type zzLife struct {
 	closeInRead               error // when non-nil, the 2nd read delivery closes the channel from inside the handler
 	closeInActive             error
 	panicInInactive           bool
+	wrapErr                   bool
 	data                      []byte
 }
 
@@ -50,6 +51,13 @@ func (p *zzLife) HandleRead(ctx InboundContext, message Message) {
 	func() {
 		defer func() { p.inRead = false }()
 		vrt.Yield() // a handler takes time: "read delivery in progress" is an observable state
+		if p.wrapErr {
+			// what the shipped frame codecs do with a failing read: the error is wrapped (%w) before it is raised
+			n, err := r.Read(buf[:])
+			utils.AssertIf(nil != err, "zz read fail, read: %d, error: %w", n, err)
+			p.data = append(p.data, buf[:n]...)
+			return
+		}
 		n := utils.AssertLength(r.Read(buf[:]))
 		p.data = append(p.data, buf[:n]...)
 	}()
@@ -83,7 +91,8 @@ var (
 
 // ZZ_C05_Lifecycle: ServeChannel with the real read loop; k user threads call Close concurrently with distinct
 // errors; optionally a handler closes from inside a read or the active event; the transport read fails after
-// `nreads` bytes with error kind `rkind` (0 block until closed, 1 io.EOF, 2 timeout net.Error, 3 other net.Error).
+// `nreads` bytes with error kind `rkind` (0 block until closed, 1 io.EOF, 2 timeout net.Error, 3 other net.Error,
+// 4 other net.Error wrapped with %w by the reading handler).
 func ZZ_C05_Lifecycle(q, closers, handlerClose, nreads, rkind, swallow int) {
 	tr := newZZTransport()
 	for i := 0; i < nreads; i++ {
@@ -94,10 +103,13 @@ func ZZ_C05_Lifecycle(q, closers, handlerClose, nreads, rkind, swallow int) {
 		tr.readErr = io.EOF
 	case 2:
 		tr.readErr = &zzNetErr{timeout: true}
-	case 3:
+	case 3, 4:
 		tr.readErr = &zzNetErr{timeout: false}
 	}
-	probe := &zzLife{swallowEx: swallow != 0}
+	probe := &zzLife{swallowEx: swallow != 0, wrapErr: rkind == 4}
+	if rkind == 4 {
+		rkind = 3 // the same fault, wrapped by the reading handler as the frame codecs do
+	}
 	switch handlerClose {
 	case 1:
 		probe.closeInRead = zzErrH
